@@ -319,6 +319,15 @@ impl Gen<'_> {
     }
 
     fn mem(&mut self, ctx: &mut FnCtx) {
+        if self.cfg.boundary_imm && self.r.chance(1, 5) {
+            // an access at the very edge of the offset range, frame or no frame
+            let off = *self.r.pick(&["0x80000000", "-0x80000000", "2147483647", "-2147483647", "0x7FFFFFFC", "0xFFFFFFFC"]);
+            let reg = self.src(ctx);
+            let reg = self.reg(reg);
+            let op = *self.r.pick(&["sw", "lw", "sb", "lb"]);
+            self.emit(format!("{op} {reg}, {off}({})", self.reg("sp")));
+            return;
+        }
         if ctx.frame > 0 && self.r.chance(2, 3) {
             let slots = ctx.frame / 4;
             let off = 4 * self.r.range(0, slots - 1);
